@@ -438,6 +438,11 @@ class Engine:
                     loc = Loc(loc.cell, loc.path + (iv_.v,))
                 else:
                     return None
+            elif k == "constindex" and not pr.get("from_end"):
+                base = self.resolve(st, load(loc))
+                if isinstance(base, RefV):
+                    loc = Loc(base.cell, base.path)
+                loc = Loc(loc.cell, loc.path + (int(pr["offset"]),))
             elif k in ("constindex", "subslice"):
                 return None
             else:
@@ -568,8 +573,25 @@ class Engine:
         if k in ("copy", "move"):
             return self.read_place(st, fr, o["place"])
         if k == "const":
-            return self.const_val(o["c"], fr)
+            c = o["c"]
+            if "uneval" in c and "def" not in c:
+                v = self.const_param(st, c["uneval"])
+                if v is not None:
+                    return v
+            return self.const_val(c, fr)
         return TOP
+
+    def const_param(self, st, text):
+        """a const generic parameter (`Ty(usize, N/#2)` or a bare name) -> its value in the instantiation under analysis"""
+        m = _re.match(r"^(?:Ty\([^,]+, )?([A-Z][A-Z0-9_]*)(?:/#\d+)?\)?$", str(text))
+        if not m:
+            return None
+        g = self.concrete_gargs(st, {"gargs": [m.group(1)]})[0]
+        if _re.fullmatch(r"-?\d+", g):
+            return K(int(g))
+        if g in ("true", "false"):
+            return K(g == "true")
+        return None
 
     def binop(self, st, op, a, b, ty):
         a = self.resolve(st, a)
@@ -719,6 +741,15 @@ class Engine:
                 return BytesV(bytes(self.resolve(st, fs[i]).v & 0xFF for i in sorted(fs)))
             return AggV(rv["agg"], fs)
         if k == "repeat":
+            cnt = rv.get("count")
+            n_ = int(cnt) if str(cnt).isdigit() else None
+            if n_ is None:
+                kv = self.const_param(st, cnt)
+                n_ = kv.v if kv is not None and isinstance(kv.v, int) else None
+            if n_ is not None and n_ <= 64 and "a" in rv:
+                el = self.operand(st, fr, rv["a"])
+                import copy as _copy
+                return AggV("array", {i: (_copy.deepcopy(el) if isinstance(el, AggV) else el) for i in range(n_)})
             return AggV("array", {})
         return TOP
 
@@ -963,12 +994,14 @@ class Engine:
         line = t.get("line") if t is not None else "?"
         # documented wiring of user-provided trait methods to library defaults
         red = self.redirect.get(rname) or self.redirect.get(name)
+        if callable(red):
+            red = red(self, st, t, name, args)   # -> a Body, a path or None
         if red is not None and len(st.frames) < self.max_depth:
-            body = self.find_body(red)
+            body = red if not isinstance(red, str) else self.find_body(red)
             if body is not None:
                 st.trace.append(Event("enter", red, red, tuple(snapshot(a) for a in args), fr.bi, line, len(st.frames), fr.body.npath if fr.body else "?"))
                 nf = self.push_frame(st, body, args, dest, target)
-                nf.gargs = tuple(c.get("resolved_gargs") or c.get("gargs") or ())
+                nf.gargs = self.concrete_gargs(st, c, resolved=True)
                 return [st]
         # 1. closures called through Fn* traits
         if name.endswith(("FnOnce::call_once", "FnMut::call_mut", "Fn::call")) and args:
@@ -999,7 +1032,7 @@ class Engine:
             if body is not None and body.kind != "Closure":
                 st.trace.append(Event("enter", name, rname, tuple(snapshot(a) for a in args), fr.bi, line, len(st.frames), fr.body.npath if fr.body else "?"))
                 nf = self.push_frame(st, body, args, dest, target)
-                nf.gargs = tuple(c.get("resolved_gargs") or c.get("gargs") or ())
+                nf.gargs = self.concrete_gargs(st, c, resolved=True)
                 return [st]
         # 4. event
         st.trace.append(Event("call", name, rname, tuple(snapshot(a) for a in args), fr.bi, line, len(st.frames), fr.body.npath if fr.body else "?", extra={"gargs": self.concrete_gargs(st, c), "self_ty": c.get("self_ty")}))
@@ -1011,20 +1044,33 @@ class Engine:
         r = st.fresh(("ret", name, fr.bi, tuple(snapshot(a) for a in args)))
         return self.finish_call(st, fr, [(st, r)], dest, target, t)
 
-    def concrete_gargs(self, st, c):
+    def concrete_gargs(self, st, c, resolved=False):
         """generic arguments of a callee with the caller's generic parameters (FORMAT, T, N ...) replaced by what the
-        enclosing analysed-in-place call was instantiated with, when that is unambiguous"""
+        enclosing analysed-in-place calls were instantiated with: each frame records the generic arguments of the
+        call that created it, and the extractor records the parameter names of every function in the same order"""
         out = []
-        for g in (c.get("gargs") or ()):
+        src = (c.get("resolved_gargs") if resolved else None) or c.get("gargs") or ()
+        for g in src:
             g = str(g)
-            if _GENERIC_PARAM.match(g):
+            hops = 0
+            while _GENERIC_PARAM.match(g) and hops < 8:
+                hops += 1
+                found = None
                 for fr_ in reversed(st.frames):
+                    if not fr_.gargs:
+                        continue
+                    names = (fr_.body.j.get("generics") if fr_.body is not None and hasattr(fr_.body, "j") else None) or None
+                    if names and len(names) == len(fr_.gargs):
+                        if g in names:
+                            found = str(fr_.gargs[names.index(g)])
+                        break
                     cand = [x for x in fr_.gargs if not _GENERIC_PARAM.match(str(x))]
                     if len(fr_.gargs) == 1 and len(cand) == 1:
-                        g = str(cand[0])
-                        break
-                    if fr_.gargs:
-                        break
+                        found = str(cand[0])
+                    break
+                if found is None or found == g:
+                    break
+                g = found
             out.append(g)
         return tuple(out)
 
@@ -1254,12 +1300,83 @@ def _err_ty(s):
     return None
 
 
+def _ty_head(s):
+    return s.split("<")[0].strip().lstrip("&").strip()
+
+
+def _same_ty_head(a, b):
+    a, b = _ty_head(a), _ty_head(b)
+    return bool(a) and bool(b) and (a == b or a.endswith("::" + b) or b.endswith("::" + a))
+
+
+def workspace_from(eng, src_ty, dst_ty, val):
+    """`<dst as From<src>>::from(val)` through the workspace's own impl when there is exactly one (evaluated as a pure
+    function); None when there is none or it cannot be decided"""
+    import re
+    cache = eng.__dict__.setdefault("_from_impls", None)
+    if cache is None:
+        cache = []
+        for u in eng.program.units:
+            for b in u.bodies:
+                if b.name == "from" and b.impl_trait and "convert::From<" in b.impl_trait and b.kind in ("Fn", "AssocFn"):
+                    m = re.search(r"convert::From<(.*)>>$", b.impl_trait)
+                    if m:
+                        cache.append((b.impl_self or "", m.group(1), b))
+        eng._from_impls = cache
+    hits = [b for dst, src, b in cache if _same_ty_head(dst, dst_ty) and _same_ty_head(src, src_ty)]
+    if len(hits) != 1:
+        return None
+    try:
+        res = eng.run(hits[0], [val])
+    except (TooManyPaths, RecursionError):
+        return None
+    if len(res) == 1 and res[0].outcome == "return":
+        return res[0].retval
+    return None
+
+
+def _norm_ty(s):
+    s = str(s).replace(" ", "")
+    for pre in ("scpi::", "scpi_contrib::", "crate::"):
+        s = s.replace(pre, "")
+    import re
+    return re.sub(r"<'[a-z_]+>", "", re.sub(r"'[a-z_]+,", "", s))
+
+
+def conversion_redirect(eng, st, t, name, args):
+    """Engine.redirect entry for TryInto::try_into / TryFrom::try_from / Into::into / From::from: when the workspace
+    has exactly one impl converting the call's source type into its target type, analyse that impl in place"""
+    import re
+    idx = eng.__dict__.get("_conv_impls")
+    if idx is None:
+        idx = []
+        for u in eng.program.units:
+            for b in u.bodies:
+                if b.name in ("try_from", "from") and b.impl_trait and b.kind in ("Fn", "AssocFn"):
+                    m = re.search(r"convert::(TryFrom|From)<(.*)>>$", b.impl_trait)
+                    if m:
+                        idx.append((b.name, _norm_ty(b.impl_self or ""), _norm_ty(m.group(2)), b))
+        eng._conv_impls = idx
+    g = [_norm_ty(x) for x in eng.concrete_gargs(st, (t or {}).get("callee") or {})]
+    if len(g) < 2:
+        return None
+    meth = name.split("::")[-1]
+    src, dst = (g[0], g[1]) if meth in ("try_into", "into") else (g[1], g[0])
+    want = "try_from" if meth.startswith("try_") else "from"
+    hits = [b for nm, d, s_, b in idx if nm == want and d == dst and (s_ == src or _ty_head(s_) == _ty_head(src) and "<" in s_)]
+    return hits[0] if len(hits) == 1 else None
+
+
 def m_from_residual(eng, st, fr, t, name, rname, args):
     v = eng.resolve(st, args[0])
     if isinstance(v, EnumV) and v.name == "Err":
         g = (t or {}).get("callee", {}).get("gargs", [])
         if len(g) == 2 and _err_ty(g[0]) is not None and _err_ty(g[0]) == _err_ty(g[1]):
             return mk_err(v.fields.get(0, TOP))  # identity conversion
+        if len(g) == 2 and _err_ty(g[0]) and _err_ty(g[1]):
+            w = workspace_from(eng, _err_ty(g[1]), _err_ty(g[0]), v.fields.get(0, TOP))
+            if w is not None:
+                return mk_err(w)
         return mk_err(AggV("From::from", {0: v.fields.get(0, TOP)}))
     if isinstance(v, EnumV) and v.name == "None":
         return mk_option(None)
